@@ -247,7 +247,7 @@ def run(ck):
             meta[sid] = dict(mode=mode, al=al, ns=ns, q1=q1, q2=q2, mq=mq, kind=kind, lose=lose, settled=len(lose) <= 12, quiet_rounds=int(rounds * 0.3))
             infos[sid] = info
         add("none")
-        step = 1 if not quick else max(1, nlast // 40)
+        step = max(1, nlast // (40 if quick else 250))
         for k in range(1, nlast, step):
             add("single", [k])
         for _ in range(20 if quick else 400):
